@@ -93,6 +93,7 @@ var (
 	fSamples   = flag.Int("samples", 2, "rendered sample runs to keep")
 	fRefSrv    = flag.Bool("refserver", false, "serve reference answers on stdin/stdout (started by a C13 worker)")
 	fNoRef     = flag.Bool("noref", false, "compute references in-process")
+	fRunList   = flag.String("runlist", "", "execute exactly these run indices, in this order, in this one process (replay of a process history)")
 	fParams    = flag.String("params", "", "k=v,k=v extra parameters")
 	fPlanCap   = flag.Int("plancap", 1500, "fault enumeration: beyond this many fault plans per base, sample")
 	fEnumLimit = flag.Int("enumlimit", 0, "fault enumeration: execute only the first N plans per base (determinism re-runs)")
@@ -333,11 +334,25 @@ func doBatch() {
 		defer distinctOut.Close()
 	}
 	start := time.Now()
+	var runList []uint64
+	if *fRunList != "" {
+		for _, f := range strings.Split(*fRunList, ",") {
+			var v uint64
+			if _, err := fmt.Sscanf(f, "%d", &v); err != nil {
+				trouble("bad -runlist element %q", f)
+			}
+			runList = append(runList, v)
+		}
+		*fMaxRuns = len(runList)
+	}
 	for k := 0; k < *fMaxRuns; k++ {
 		if *fDeadline > 0 && time.Now().Unix() >= *fDeadline {
 			break
 		}
 		idx := *fFrom + uint64(*fWorker) + uint64(k)*uint64(*fWorkers)
+		if runList != nil {
+			idx = runList[k]
+		}
 		seed := core.RunSeed(*fSeed, idx)
 		ch := core.NewChooser(seed)
 		ch.KeepLabels = false
